@@ -149,19 +149,21 @@ theorem edScan_blocked (G : List α) (Q : α → Prop) : ∀ (rp A : List α) (t
         tauto
     | false =>
       rw [edScan_cons_neg dom h]
-      obtain ⟨i1, i2⟩ := edScan_blocked G Q rp (x :: A) tv B rem m ?_ ?_
-      · exact ⟨fun u hu => (i1 u hu).mono (by omega), i2⟩
-      · intro u hu
+      have hI' : ∀ u, u ∈ G ∨ u ∈ x :: A ∨ u ∈ B → Blocked dom m u tv := by
+        intro u hu
         simp only [List.mem_cons] at hu
         rcases hu with hu | (rfl | hu) | hu
         · exact hI u (Or.inl hu)
         · exact Blocked.self h
         · exact hI u (Or.inr (Or.inl hu))
         · exact hI u (Or.inr (Or.inr hu))
-      · intro y hy
+      have hQ' : ∀ y, y ∈ rp ∨ y ∈ x :: A ∨ y = tv ∨ y ∈ B → Q y := by
+        intro y hy
         apply hQ
         simp only [List.mem_cons] at hy ⊢
         tauto
+      obtain ⟨i1, i2⟩ := edScan_blocked G Q rp (x :: A) tv B rem m hI' hQ'
+      exact ⟨fun u hu => (i1 u hu).mono (by omega), i2⟩
 
 theorem edLoop_no_strong (sd : α → α → Prop) (N : Nat)
     (hH : ∀ a b c, sd a b → Reach dom N b c → dom a c = true) :
@@ -288,5 +290,109 @@ example : (extractDominated (fun a b : Int => decide (b ≤ a + 1)) [3, 1, 4, 1,
   simp only [List.length_cons, List.length_nil] at hk
   simp only [decide_eq_true_eq]
   omega
+
+/-! ## 2. the library's test -/
+
+open AITB.C12Check
+
+/-- `a ≥ b + len · linkSlack M` on every coordinate.  (`n`, the dimension, is kept in the signature for the
+    test driver; the zip-truncating test does not need it.) -/
+@[nolint unusedArguments]
+def strongDom (_n : Nat) (M : Rat) (len : Nat) (a b : Vec) : Prop :=
+  domAbs (-((len : Rat) * linkSlack M)) a b = true
+
+instance (n : Nat) (M : Rat) (len : Nat) (a b : Vec) : Decidable (strongDom n M len a b) := by
+  unfold strongDom; infer_instance
+
+/-- slacks add up along two tests (the middle vector must not be shorter than the outer ones) -/
+theorem domAbs_add (e1 e2 : Rat) : ∀ (a b c : Vec), a.length = b.length → b.length = c.length →
+    domAbs e1 a b = true → domAbs e2 b c = true → domAbs (e1 + e2) a c = true
+  | [], _, _, _, _, _, _ => by simp [domAbs]
+  | _ :: _, [], _, hab, _, _, _ => by simp at hab
+  | _ :: _, _ :: _, [], _, hbc, _, _ => by simp at hbc
+  | x :: a, y :: b, z :: c, hab, hbc, h1, h2 => by
+    simp only [domAbs, Bool.and_eq_true, decide_eq_true_eq] at h1 h2 ⊢
+    exact ⟨by linarith [h1.1, h2.1],
+      domAbs_add e1 e2 a b c (by simpa using hab) (by simpa using hbc) h1.2 h2.2⟩
+
+/-- the absolute clause with a slack not above `equalToleranceSmall` implies the library's test -/
+theorem dominates_of_domAbs (e : Rat) (he : e ≤ Gen.equalToleranceSmall) (a b : Vec)
+    (h : domAbs e a b = true) : dominates a b = true := by
+  unfold dominates dominatesT
+  rw [domAbs_mono e _ he a b h]
+  rfl
+
+/-- a chain of `k` tests between members of `xs` costs at most `k · linkSlack M` on every coordinate -/
+theorem chain_domAbs (n : Nat) (M : Rat) (xs : List Vec)
+    (hlen : ∀ v ∈ xs, v.length = n) (hM : ∀ v ∈ xs, ∀ x ∈ v, absQ x ≤ M) :
+    ∀ {k : Nat} {b c : Vec}, Chain (restrict dominates xs) k b c →
+      domAbs ((k : Rat) * linkSlack M) b c = true ∧ b ∈ xs ∧ c ∈ xs := by
+  have link : ∀ b c, restrict dominates xs b c = true →
+      domAbs (linkSlack M) b c = true ∧ b ∈ xs ∧ c ∈ xs := by
+    intro b c h
+    obtain ⟨h1, h2, h3⟩ := restrict_true h
+    exact ⟨dominatesT_domAbs' _ _ M tolSmall_nonneg tolGeneral_nonneg b c (hM b h2) h1, h2, h3⟩
+  intro k b c hc
+  induction hc with
+  | one h =>
+    obtain ⟨h1, h2, h3⟩ := link _ _ h
+    exact ⟨by simpa using h1, h2, h3⟩
+  | @cons j _ _ _ h _ ih =>
+    obtain ⟨h1, h2, h3⟩ := link _ _ h
+    obtain ⟨h4, h5, h6⟩ := ih
+    refine ⟨?_, h2, h6⟩
+    have := domAbs_add _ _ _ _ _ (by rw [hlen _ h2, hlen _ h3]) (by rw [hlen _ h5, hlen _ h6]) h1 h4
+    have e : ((j + 1 : Nat) : Rat) * linkSlack M = linkSlack M + (j : Rat) * linkSlack M := by
+      push_cast; ring
+    rw [e]
+    exact this
+
+/-- **kept_vector_dominated**: with the library's tolerant test, no kept vector exceeds another kept vector by
+    `xs.length · linkSlack M` on every coordinate (the slack is exactly the one of `extractDominated_spec`). -/
+theorem extractDominated_no_strong_dominates (n : Nat) (M : Rat) (xs : List Vec)
+    (hlen : ∀ v ∈ xs, v.length = n) (hM : ∀ v ∈ xs, ∀ x ∈ v, absQ x ≤ M) :
+    (extractDominated dominates xs).1.Pairwise
+      (fun a b => ¬ strongDom n M xs.length a b ∧ ¬ strongDom n M xs.length b a) := by
+  have hagree := restrict_agree dominates xs
+  have hmem : ∀ y ∈ (extractDominated dominates xs).1, y ∈ xs := fun y hy =>
+    (extractDominated_perm dominates xs).mem_iff.mp (List.mem_append_left _ hy)
+  have hδ := linkSlack_nonneg M
+  have hneg : -((xs.length : Rat) * linkSlack M) ≤ Gen.equalToleranceSmall := by
+    have : 0 ≤ (xs.length : Rat) * linkSlack M := mul_nonneg (Nat.cast_nonneg _) hδ
+    linarith [tolSmall_nonneg]
+  have key := extractDominated_no_strong (restrict dominates xs)
+    (fun a b => strongDom n M xs.length a b ∧ a ∈ xs ∧ b ∈ xs)
+    (by
+      rintro a b ⟨hs, ha, hb⟩
+      rw [← hagree a ha b hb]
+      exact dominates_of_domAbs _ hneg a b hs)
+    xs
+    (by
+      rintro a b c k hk ⟨hs, ha, hb⟩ hc
+      obtain ⟨h1, _, h3⟩ := chain_domAbs n M xs hlen hM hc
+      rw [← hagree a ha c h3]
+      have h2 := domAbs_add _ _ a b c (by rw [hlen a ha, hlen b hb]) (by rw [hlen b hb, hlen c h3]) hs h1
+      refine dominates_of_domAbs _ ?_ a c h2
+      have hk' : (k : Rat) ≤ (xs.length : Rat) := by exact_mod_cast Nat.le_of_lt hk
+      have : (k : Rat) * linkSlack M ≤ (xs.length : Rat) * linkSlack M := mul_le_mul_of_nonneg_right hk' hδ
+      linarith [tolSmall_nonneg])
+  rw [← extractDominated_congr dominates (restrict dominates xs) xs hagree] at key
+  refine key.imp_of_mem ?_
+  intro a b ha hb hab
+  exact ⟨fun h => hab.1 ⟨h, hmem a ha, hmem b hb⟩, fun h => hab.2 ⟨h, hmem b hb, hmem a ha⟩⟩
+
+/-- test: the theorem on a literal list (n = 2, M = 4): a duplicate, a vector within the tolerance of another one,
+    an incomparable pair and a clearly dominated vector; hypotheses discharged by kernel evaluation -/
+example : (extractDominated dominates [[1, 0], [0, 1], [1, 0], [1/2, -4], [1, 1/1000000]]).1.Pairwise
+    (fun a b => ¬ strongDom 2 4 5 a b ∧ ¬ strongDom 2 4 5 b a) :=
+  extractDominated_no_strong_dominates 2 4 [[1, 0], [0, 1], [1, 0], [1/2, -4], [1, 1/1000000]]
+    (by decide +kernel) (by decide +kernel)
+
+/-- test (the clause is not vacuous): `strongDom` holds for a clearly dominated pair and fails inside the slack, and
+    the kept range of the list above, evaluated by the kernel, satisfies the clause -/
+example : strongDom 2 4 5 [1, 1] [0, 0] ∧ ¬ strongDom 2 4 5 [1, 1/1000000] [1, 0] := by decide +kernel
+example : (extractDominated dominates [[1, 0], [0, 1], [1, 0], [1/2, -4], [1, 1/1000000]]).1.all
+    (fun a => (extractDominated dominates [[1, 0], [0, 1], [1, 0], [1/2, -4], [1, 1/1000000]]).1.all
+      (fun b => a == b || !domAbs (-((5 : Rat) * linkSlack 4)) a b)) = true := by decide +kernel
 
 end AITB.Prune
